@@ -11,7 +11,7 @@
    module epilogue), `mutate` (every mutator, with checkMutable where the code
    has it), `run_steps` (any sequence of mutators and allocations). *)
 From Coq Require Import List Arith Bool ZArith Lia.
-From SV Require Import C04.Heap C04.Model C04.ProofsMut C04.ProofsFreeze C04.ProofsTotal C04.History.
+From SV Require Import C04.Heap C04.Model C04.Spec C04.ProofsMut C04.ProofsFreeze C04.ProofsTotal C04.ProofsSpec C04.History.
 Import ListNotations.
 
 (* freeze_closure.  When the module epilogue returns -- whichever globals were
@@ -123,6 +123,31 @@ Theorem module_values_immutable :
       lookup (run_steps h' steps) l = Some o.
 Proof. exact module_values_immutable_lemma. Qed.
 
+(* The oracle of the correspondence check (Spec.reach_dec, a bounded iteration
+   that is accepted only if its result is closed under the edge relation)
+   decides `reachable` exactly. *)
+Theorem oracle_reachability_complete :
+  forall h roots s, reach_dec h roots = Some s -> forall l, reachable h roots l -> memb l s = true.
+Proof. exact reach_dec_complete_lemma. Qed.
+
+Theorem oracle_reachability_sound :
+  forall h roots s l, reach_dec h roots = Some s -> memb l s = true -> reachable h roots l.
+Proof. exact reach_dec_sound_lemma. Qed.
+
+(* The model meets the specification used as the oracle: whatever Model.mutate
+   does to the heap Model.freeze_globals produced is accepted by Spec.spec_ok --
+   objects reachable from the globals reject (or do nothing), objects that are
+   not reachable are untouched by the epilogue and still accept what a mutable
+   object accepts (append appends, clear clears). *)
+Theorem model_meets_spec :
+  forall fuel h0 globals h' s l o m,
+    closed_frozen h0 ->
+    freeze_globals fuel h0 globals = Some h' ->
+    reach_dec h0 globals = Some s ->
+    lookup h0 l = Some o ->
+    spec_ok_with (Some s) h0 (observe h' l m) = true.
+Proof. exact model_meets_spec_lemma. Qed.
+
 (* ------------------------------------------------------------------------
    The hypotheses are satisfiable on a non-trivial heap:
      0: list [1, ref 1, ref 0]            (cyclic: contains itself)
@@ -193,3 +218,12 @@ Proof. reflexivity. Qed.
 Example ex_noop_case : mutate [OSet true 0 []] 0 SClear = Ok [OSet true 0 []]
                     /\ noop_case [OSet true 0 []] 0 SClear = true.
 Proof. split; reflexivity. Qed.
+
+Example ex_reach_dec : reach_dec ex_heap [VRef 0] = Some [0; 1; 2; 3; 4; 5].
+Proof. reflexivity. Qed.
+
+Example ex_model_meets_spec :
+  spec_ok ex_heap [VRef 0] (observe ex_frozen 6 (LAppend (VAtom 5))) = true /\
+  spec_ok ex_heap [VRef 0] (observe ex_frozen 4 (SAdd 8)) = true /\
+  p_err (observe ex_frozen 4 (SAdd 8)) = true.
+Proof. repeat split; reflexivity. Qed.
